@@ -178,6 +178,8 @@ def parseOp? (ts : List String) : Option Op :=
     | "simple", "ron" => some (.cfg false true)
     | "uuid", "json" => some (.cfg true false)
     | "uuid", "ron" => some (.cfg true true)
+    | "uuidapp", "json" => some (.cfg true false)
+    | "uuidapp", "ron" => some (.cfg true true)
     | _, _ => none
   | ["create", w, "now"] => (parseWorld? w).map (.create · false)
   | ["create", w, "atomic"] => (parseWorld? w).map (.create · true)
